@@ -405,7 +405,10 @@ func build(s *spec, specs []*spec) []byte {
 		}
 		return wasmb.ConstI32(s.constVal)
 	}
-	if s.elemSeg {
+	if s.twist == "elem-item-global-i32" {
+		// an element item "global.get <imported i32 global>": not a reference, the module is invalid
+		m.Elems = append(m.Elems, wasmb.Elem{Mode: 0, Offset: wasmb.ConstI32(0), Funcs: []uint32{gidx[gI32]}, GlobalAt: map[int]bool{0: true}})
+	} else if s.elemSeg {
 		first := idFn
 		if s.putsImport() {
 			first = 0 // function index 0 = the first imported function
@@ -458,7 +461,7 @@ func (r *runner) compatible(s *spec) (bool, string) {
 			return false, s.twist
 		case strings.HasPrefix(s.twist, "global-"):
 			return false, s.twist
-		case strings.HasPrefix(s.twist, "mem-"), strings.HasPrefix(s.twist, "tab-"):
+		case strings.HasPrefix(s.twist, "mem-"), strings.HasPrefix(s.twist, "tab-"), strings.HasPrefix(s.twist, "elem-"):
 			return false, s.twist
 		}
 	}
@@ -626,6 +629,9 @@ func (r *runner) instantiate(twisted bool) {
 		if s.memFrom >= 0 {
 			opts = append(opts, "mem-min", "mem-max", "mem-shared")
 		}
+		if s.gFrom[gI32] >= 0 {
+			opts = append(opts, "elem-item-global-i32")
+		}
 		if s.tabFrom >= 0 {
 			opts = append(opts, "tab-min", "tab-max")
 		}
@@ -744,6 +750,14 @@ func (r *runner) instantiate(twisted bool) {
 		}
 	}
 	cm, err := r.rt.CompileModule(r.ctx, bin)
+	if s.twist == "elem-item-global-i32" {
+		// invalid by its own text: must be refused when compiled
+		r.res.Logf("%s -> compile failed=%v", what, err != nil)
+		if err == nil {
+			r.res.Fail("link-compatibility", "%s: an element item that is global.get of an i32 global was accepted by CompileModule (the integer would become a function reference in the shared table)", what)
+		}
+		return
+	}
 	if err != nil {
 		panic(fmt.Sprintf("harness: generated module does not compile: %v\n%s", err, s.describe()))
 	}
